@@ -198,7 +198,7 @@ namespace sim
       // an allocator's construct may fail on its own account (quota, uses-allocator
       // construction that allocates) even when U's constructor is noexcept
       G ().construct_is_move = is_move_of<U, Args...>::value;
-      note_construct_destroy_id (static_cast<const sim_alloc<T, Cfg> *> (this)->id);
+      note_construct_destroy_id (static_cast<const sim_alloc<T, Cfg> *> (this)->id, p, false);
       on_event (EV_ALLOC_CONSTRUCT);
       ::new (static_cast<void *> (p)) U (std::forward<Args> (args)...);
       ++CS ().constructs;
@@ -208,7 +208,7 @@ namespace sim
     void
     destroy (U *p)
     {
-      note_construct_destroy_id (static_cast<const sim_alloc<T, Cfg> *> (this)->id);
+      note_construct_destroy_id (static_cast<const sim_alloc<T, Cfg> *> (this)->id, p, true);
       ++CS ().destroys;
       p->~U ();
     }
@@ -221,7 +221,7 @@ namespace sim
     construct (T *p, const T& v)
     {
       G ().construct_is_move = false;
-      note_construct_destroy_id (static_cast<const sim_alloc<T, Cfg> *> (this)->id);
+      note_construct_destroy_id (static_cast<const sim_alloc<T, Cfg> *> (this)->id, p, false);
       on_event (EV_ALLOC_CONSTRUCT);
       ::new (static_cast<void *> (p)) T (v);
       ++CS ().constructs;
@@ -230,7 +230,7 @@ namespace sim
     void
     destroy (T *p)
     {
-      note_construct_destroy_id (static_cast<const sim_alloc<T, Cfg> *> (this)->id);
+      note_construct_destroy_id (static_cast<const sim_alloc<T, Cfg> *> (this)->id, p, true);
       ++CS ().destroys;
       p->~T ();
     }
